@@ -109,6 +109,14 @@ func newSource(rg *rng, kind string, r image.Rectangle) image.Image {
 		runs(m.Pix, 4)
 		premul8(m.Pix)
 		return m.SubImage(r)
+	case "rgba-raw":
+		m := image.NewRGBA(outer)
+		fill(m.Pix)
+		return m.SubImage(r)
+	case "rgba64-raw":
+		m := image.NewRGBA64(outer)
+		fill(m.Pix)
+		return m.SubImage(r)
 	case "nrgba":
 		m := image.NewNRGBA(outer)
 		fill(m.Pix)
@@ -439,6 +447,58 @@ func corrC10(c *corrCtx) {
 				bandRows = nil
 			}
 		}
+		// the image-level entry points against the per-colour functions on images large enough to meet rare
+		// (component, alpha) pairs — a whole-image result must be, pixel for pixel, what the colour function gives
+		// (direct oracle only: too large for the line protocol)
+		if rep == 0 {
+			side := 160
+			if c.thorough() {
+				side = 700
+			}
+			for _, x := range xs {
+				if x.img == nil {
+					continue
+				}
+				for _, sk := range []string{"rgba64", "nrgba64"} {
+					var src image.Image
+					rect := image.Rect(0, 0, side, side)
+					if sk == "rgba64" {
+						m := image.NewRGBA64(rect)
+						for i := 0; i+7 < len(m.Pix); i += 8 {
+							a := 1 + r.intn(65535)
+							for k := 0; k < 3; k++ {
+								v := r.intn(a + 1)
+								m.Pix[i+2*k], m.Pix[i+2*k+1] = uint8(v>>8), uint8(v)
+							}
+							m.Pix[i+6], m.Pix[i+7] = uint8(a>>8), uint8(a)
+						}
+						src = m
+					} else {
+						m := image.NewNRGBA64(rect)
+						for i := range m.Pix {
+							m.Pix[i] = uint8(r.next())
+						}
+						src = m
+					}
+					dst := image.NewRGBA64(rect)
+					n := r.pick(1, 3, 16)
+					x.img(dst, src, n)
+					c.stats["big-image/"+x.name]++
+					bad := 0
+					for y := 0; y < side && bad == 0; y++ {
+						for xx := 0; xx < side; xx++ {
+							want := x.f(src.At(xx, y))
+							if got := dst.RGBA64At(xx, y); got != want {
+								c.direct(fmt.Sprintf("C10/big-image/%s/%s", x.name, sk), "the image-level transform differs from the colour function applied to the source pixel (large image: rare component/alpha pairs)",
+									map[string]interface{}{"transform": x.name, "src_type": sk, "at": fmt.Sprint(xx, y), "src_pixel": fmt.Sprint(src.At(xx, y)), "got": fmt.Sprint(got), "want": fmt.Sprint(want), "parallelism": n, "side": side})
+								bad++
+								break
+							}
+						}
+					}
+				}
+			}
+		}
 		// in place: source == destination
 		for _, dk := range []string{"rgba64", "rgba", "nrgba", "nrgba64"} {
 			g := geoms[3+r.intn(len(geoms)-3)]
@@ -540,7 +600,9 @@ func corrC15(c *corrCtx) {
 	if c.thorough() {
 		reps = 24
 	}
-	kinds := srcKinds
+	// the conversion helpers must agree with draw.Draw on every byte value in every channel position — also on
+	// premultiplied images whose colour bytes exceed their alpha (legal to store; no decoder produces them)
+	kinds := append(append([]string{}, srcKinds...), "rgba-raw", "rgba64-raw")
 	type geom struct{ w, h int }
 	geoms := []geom{{0, 0}, {1, 1}, {1, 6}, {6, 1}, {5, 4}, {8, 9}, {16, 3}}
 	for rep := 0; rep < reps; rep++ {
@@ -579,7 +641,11 @@ func corrC15(c *corrCtx) {
 						continue
 					}
 					same := sameInstance(out, src)
-					if same != (sk == target) {
+					skType := sk
+					if len(sk) > 4 && sk[len(sk)-4:] == "-raw" {
+						skType = sk[:len(sk)-4]
+					}
+					if same != (skType == target) {
 						c.direct(fmt.Sprintf("C15/identity/%s/%s", sk, target), "an input already of the target type must be returned as the same instance (and only then)", map[string]interface{}{"src": sk, "target": target, "same": same})
 					}
 					if out.Bounds() != sb {
